@@ -242,6 +242,32 @@ impl Prop for C07 {
         // asking the same instance again must give the same answer
         let again: Option<Vec<isize>> = bfm.distances().map(<[isize]>::to_vec);
         ensure!(again == got, "a second distances() call on the same instance returned {again:?}, the first {got:?}");
+        if n <= 16 {
+            // clones, and clone_from targets built over another digraph / source
+            let other = reprs::build_weighted(&WDg { order: n + 2, arcs: (0..n + 1).map(|v| (v, v + 1, -1_isize)).collect() });
+            for used_source in [false, true] {
+                let mut src = BellmanFordMoore::new(&g, c.s);
+                if used_source {
+                    let _ = src.distances();
+                }
+                let cl: Option<Vec<isize>> = src.clone().distances().map(<[isize]>::to_vec);
+                ensure!(cl == got, "a clone of a {} instance returned {cl:?}, the original {got:?}", if used_source { "used" } else { "fresh" });
+                for used_target in [false, true] {
+                    let mut t = BellmanFordMoore::new(&other, n + 1 - c.s.min(n));
+                    if used_target {
+                        let _ = t.distances();
+                    }
+                    t.clone_from(&src);
+                    let r: Option<Vec<isize>> = t.distances().map(<[isize]>::to_vec);
+                    ensure!(
+                        r == got,
+                        "clone_from onto a {} instance built over another digraph from a {} instance returned {r:?}, a fresh instance {got:?}",
+                        if used_target { "used" } else { "fresh" },
+                        if used_source { "used" } else { "fresh" }
+                    );
+                }
+            }
+        }
         if reference.negative_circuit {
             ensure!(
                 got.is_none(),
